@@ -118,7 +118,7 @@ PROPS = {
     'C12': dict(fn=mk(['R12.', 'R15.2']), explanation='provenance (origin terms) of every argument of transition, transition_cost, relax, merge, for_each_in_domain, next_variable; who may call _branch_on; depth counter; merged slice has at least two members'),
     'C13': dict(fn=mk(['R13.']), explanation='squash executed on every expanded layer vector; symbolic length <= max_width at every exit of _restrict/_relax; width guards'),
     'C14': dict(fn=mk(['R14.', 'R01.1', 'R01.3', 'R01.4', 'R01.6', 'R09.4', 'R09.5', 'R02.1'], lambda r: r['rule'] != 'R02.1' or 'improve-only' in r['instance']), explanation='set_primal strictness table, both fields under one guard; no prune site (pop, enqueue, rough bound, cache filter) discards a node with ub > best_lb; incumbent replaced only on improvement'),
-    'C15': dict(fn=mk(['R15.', 'R08.3', 'R12.d', 'R12.f']), explanation='Pooled: un-impacted nodes are neither expanded nor removed from the pool; depth assigned when a node leaves the pool and at finalisation; a layer is recorded only when non-empty; progress rule (root never handed out) shared with C08'),
+    'C15': dict(fn=mk(['R15.', 'R08.', 'R12.', 'R06.1', 'R06.2', 'R06.3', 'R09.', 'R02.4', 'R02.5', 'R02.6', 'R13.a', 'R13.b', 'R01.6', 'R01.7'], lambda r: r['rule'].startswith('R15') or r['instance'].startswith('Pooled')), explanation='Pooled: un-impacted nodes are neither expanded nor removed from the pool; depth assigned when a node leaves the pool and at finalisation; a layer is recorded only when non-empty; progress rule (root never handed out) shared with C08; plus every diagram rule instantiated on Pooled (cut-set, local bounds, thresholds, callback protocol, reset, squash)'),
     'C17': dict(fn=mk(['R17']), level='proof', explanation='abstract interpretation of the MIR of Solver::gap over a partition of all (lb <= ub) into sign/order cells; in each cell every comparison between the symbolic expressions (|lb|, |ub|, max, min, |ub-lb|) is decided, so all feasible paths are followed; obligations per cell: not NaN / no panic, >= 0, = 1 when a bound is infinite, = 0 iff lb = ub, <= 1 when the bounds have the same sign',
                 obligations=lambda results: len(results), checker_cmd='./check C17 quick',
                 trusted_base=['rustc MIR construction', 'engine/factsdrv', 'absint_gap.py transfer functions (int->float conversion is monotone, exact at 0 and keeps positive values positive and finite; x/y with 1 <= x, y <= 2^64 does not underflow; IEEE division)'],
